@@ -24,6 +24,7 @@ class Profile:
     long_strings: bool = True
     oversize_legacy: bool = False  # 32768-byte strings on legacy classes (must be rejected)
     max_array: int = 3
+    long_lengths: tuple = (126, 127, 128, 129, 16383, 16384, 32766, 32767)
     # known-finding exclusions (each counted by the caller)
     whole_second_timestamps: bool = False
     small_durations: bool = False  # |ms| <= 2**53
@@ -34,6 +35,7 @@ PYTHON_CANONICAL = Profile("python_canonical")
 WIRE_CONFORMING = Profile("wire_conforming", explicit_defaults=True, unknown_tags=True, any_float_bits=True)
 WIRE_CANONICAL = Profile("wire_canonical", any_float_bits=True)
 SMALL = Profile("small", long_strings=False, max_array=2)
+MEDIUM = Profile("medium", long_lengths=(126, 127, 128, 129, 200))
 
 
 def _pow2_neighbours(lo: int, hi: int) -> list[int]:
@@ -67,7 +69,7 @@ def utf8_bytes(draw, profile: Profile, legacy: bool) -> bytes:
     if mode <= 1:
         return b""
     if mode == 2 and profile.long_strings:
-        lengths = list(_LONG_LENGTHS)
+        lengths = list(profile.long_lengths)
         if profile.oversize_legacy and legacy:
             lengths.append(32768)
         n = draw(st.sampled_from(lengths))
@@ -85,7 +87,7 @@ def raw_bytes(draw, profile: Profile) -> bytes:
     if mode <= 1:
         return b""
     if mode == 2 and profile.long_strings:
-        n = draw(st.sampled_from(_LONG_LENGTHS + [65536]))
+        n = draw(st.sampled_from(list(profile.long_lengths) + [max(profile.long_lengths) * 2]))
         unit = draw(st.binary(min_size=1, max_size=4))
         return (unit * (n // len(unit) + 1))[:n]
     return draw(st.binary(min_size=1, max_size=24))
